@@ -166,3 +166,17 @@ func ParseRaceText(text string) []RaceReport {
 	flush()
 	return out
 }
+
+// FirstCedarFunc returns the first cedar function named in a goroutine dump.
+func FirstCedarFunc(dump string) string {
+	for _, line := range strings.Split(dump, "\n") {
+		if strings.HasPrefix(line, cedarMod) {
+			fn := line
+			if i := strings.LastIndex(fn, "("); i > 0 {
+				fn = fn[:i]
+			}
+			return trimFunc(fn)
+		}
+	}
+	return "unknown"
+}
